@@ -217,6 +217,15 @@ def rule_recursive_registration(repo: Repo, rep: Report, rule: str) -> None:
             fn = _flc(fn, depth=1)  # the field loop was moved into a shared helper (one level: the nested-types helper stays a call)
         L = Locals(fn.node)
         loops = [n for n, _ in L.loops_over("dataclasses.fields(ANY_c)") + L.loops_over("fields(ANY_c)") if isinstance(n, ast.For)]
+        if not loops:
+            # `for field_type in _resolved_field_types(cls):` - a helper of the module that returns one entry per dataclass field
+            # (an unfiltered comprehension over dataclasses.fields(<its parameter>))
+            for lp in [n for n in own_nodes(fn.node) if isinstance(n, ast.For) and isinstance(n.iter, ast.Call) and isinstance(n.iter.func, ast.Name) and n.iter.func.id in conv.functions]:
+                hf = conv.functions[lp.iter.func.id]
+                rets = [r for r in own_nodes(hf.node) if isinstance(r, ast.Return) and r.value is not None]
+                if rets and all(isinstance(r.value, (ast.ListComp, ast.GeneratorExp)) and len(r.value.generators) == 1 and not r.value.generators[0].ifs
+                                and (dotted(getattr(r.value.generators[0].iter, "func", None) or ast.Name(id="")) or "").split(".")[-1] == "fields" for r in rets):
+                    loops.append(lp)
         sub = f"{conv.relpath}:{fname} descends into every field type"
         if len(loops) != 1:
             rep.violation(rule, sub, f"{fn.fq}|field-loop|{len(loops)}", "no single loop over dataclasses.fields(cls)", fn.loc())
